@@ -539,7 +539,12 @@ def do_resume(w, i, e, offer):
     if p.both_ok:
         w.labels.append("full-fallback")
         got = params_of(p.s)["ccert"]
-        if (got is not None) != bool(c_opts.get("ccert")):
+        by_xpsk = c_opts.get("xpsk") and \
+            p.c.session.serverCertChain is None
+        if by_xpsk:
+            # keyed by the external PSK: no certificates in either direction
+            w.labels.append("external-psk")
+        elif (got is not None) != bool(c_opts.get("ccert")):
             return bad("fallback-inherits-identity:%s:%s" % (tag, why),
                        "full handshake after a declined offer: the client "
                        "presented %s certificate, the server records %s; %s"
